@@ -295,6 +295,13 @@ func (h *verifCacheNodeH) do(op verifCacheOp, api int) {
 
 func verifCacheNodeSetup(t *testing.T) *verifCacheNodeH {
 	verifCacheEmitter = verifOpen(t)
+	if !VerifCacheWB {
+		// the cleaner of core/stores/cache cannot be driven on this tree (its internals do not match the white-box
+		// part of the world helper): without it no sound history can be recorded, the driver does not run
+		verifCacheEmitter.Emit(verifEv{"e": "info", "skipped": "C06 drivers need to drive the cleaner wheel of core/stores/cache"})
+		verifCacheEmitter.Close()
+		t.Skip("white-box part of the C06 world helper unavailable")
+	}
 	h := &verifCacheNodeH{st: NewStat("verif"), rnd: verifRand(606)}
 	t.Cleanup(func() {
 		if h.w != nil {
